@@ -1,0 +1,48 @@
+//go:build verif
+
+package store
+
+// Read-only view of a store's memory layout for the verification harness in
+// /verif (build tag "verif"). Not compiled in normal builds.
+
+type VerifLayoutInfo struct {
+	Kind              string
+	ArrayLen          int // allocated length of the dense bins array
+	Offset            int
+	MinIndex          int
+	MaxIndex          int
+	Collapsed         bool
+	MaxNumBins        int
+	BufferLen         int
+	BufferCap         int
+	CompactionTrigger int
+	PagesLen          int
+	AllocatedPages    int
+	MinPageIndex      int
+	PagesUnused       bool
+}
+
+func VerifLayout(s Store) VerifLayoutInfo {
+	switch t := s.(type) {
+	case *DenseStore:
+		return VerifLayoutInfo{Kind: "dense", ArrayLen: len(t.bins), Offset: t.offset, MinIndex: t.minIndex, MaxIndex: t.maxIndex}
+	case *CollapsingLowestDenseStore:
+		return VerifLayoutInfo{Kind: "low", ArrayLen: len(t.bins), Offset: t.offset, MinIndex: t.minIndex, MaxIndex: t.maxIndex,
+			Collapsed: t.isCollapsed, MaxNumBins: t.maxNumBins}
+	case *CollapsingHighestDenseStore:
+		return VerifLayoutInfo{Kind: "high", ArrayLen: len(t.bins), Offset: t.offset, MinIndex: t.minIndex, MaxIndex: t.maxIndex,
+			Collapsed: t.isCollapsed, MaxNumBins: t.maxNumBins}
+	case *BufferedPaginatedStore:
+		n := 0
+		for _, p := range t.pages {
+			if len(p) > 0 {
+				n++
+			}
+		}
+		return VerifLayoutInfo{Kind: "paged", BufferLen: len(t.buffer), BufferCap: cap(t.buffer), CompactionTrigger: t.bufferCompactionTriggerLen,
+			PagesLen: len(t.pages), AllocatedPages: n, MinPageIndex: t.minPageIndex, PagesUnused: t.minPageIndex == maxInt}
+	case *SparseStore:
+		return VerifLayoutInfo{Kind: "sparse", ArrayLen: len(t.counts)}
+	}
+	return VerifLayoutInfo{Kind: "unknown"}
+}
